@@ -26,6 +26,8 @@ type MergeCase struct {
 	// Pre, if set, is a merge evaluated BEFORE E on the same leaf objects: every menu item
 	// (in the same provenance) is built once and used as input of both merges.
 	Pre *Expr `json:"pre,omitempty"`
+	// Share: equal leaves of E are ONE object (the same segment given twice to one merge)
+	Share bool `json:"share,omitempty"`
 }
 
 func L(i int, opened bool) Expr { return Expr{Leaf: i + 1, Opened: opened} }
